@@ -144,7 +144,15 @@ def _check_shape(f: FuncInfo, SH: RuleResult):
                         return all(oks)
         if isinstance(e, ast.Name) and e.id == x0:
             return True
+        if isinstance(e, ast.Name) and defs.get(e.id) and not any(isinstance(d, (ast.FunctionDef, ast.Lambda)) for d in defs[e.id]) and _depth[0] < 4:
+            # a local that only ever holds reshaped values (`ret = _pack(xnew); ..; return ret`)
+            _depth[0] += 1
+            try:
+                return all(isinstance(d, ast.AST) and restores_shape(d) for d in defs[e.id])
+            finally:
+                _depth[0] -= 1
         return False
+    _depth = [0]
 
     for r in own_nodes(fn):
         if isinstance(r, ast.Return) and r.value is not None:
